@@ -121,7 +121,7 @@ func parseAs(class, text string) (ast.Node, error, string) {
 
 func rootClass(start string) string {
 	switch {
-	case strings.HasPrefix(start, "E") && len(start) <= 3:
+	case (strings.HasPrefix(start, "E") && len(start) <= 3) || strings.HasPrefix(start, "FE_"):
 		return "expr"
 	case start == "Type":
 		return "type"
@@ -495,9 +495,9 @@ func init() {
 				dir := map[string]string{"expr": "expr", "type": "type"}[rootClass(s.Start)]
 				if dir == "" {
 					switch {
-					case s.Start == "DDL":
+					case s.Start == "DDL" || strings.HasPrefix(s.Start, "FD_"):
 						dir = "ddl"
-					case s.Start == "DML":
+					case s.Start == "DML" || strings.HasPrefix(s.Start, "FM_"):
 						dir = "dml"
 					case s.Start == "QueryStatement" || strings.HasPrefix(s.Start, "QS_"):
 						dir = "query"
